@@ -941,6 +941,16 @@ func (e *Engine) evalCall(st *State, env *cenv, x *CExpr) (Val, error) {
 			return Val{}, err
 		}
 		return Val{K: KInt, T: "(pow2 " + v.T + ")", Ty: types.Typ[types.Int]}, nil
+	case "concat": // string concatenation
+		a, err := e.evalC(st, env, args[0])
+		if err != nil {
+			return Val{}, err
+		}
+		b, err := e.evalC(st, env, args[1])
+		if err != nil {
+			return Val{}, err
+		}
+		return Val{K: KStr, T: "(sconcat " + a.T + " " + b.T + ")", Ty: types.Typ[types.String]}, nil
 	case "box": // box(x): the interface value holding x (dynamic type = static type of x)
 		v, err := e.evalC(st, env, args[0])
 		if err != nil {
